@@ -194,6 +194,24 @@ def run_tlc(specdir, module, cfg, name=None, timeout=900, workers=1, heap="3g", 
     return res
 
 
+def run_apalache(specdir, module, inv, init="Init", nxt="Next", length=0, timeout=600):
+    """Symbolic check with Apalache (SMT): returns (ok, output). ok = the invariant holds for all states up to the given length."""
+    out = os.path.join(specdir, "apalache-out-" + module)
+    cmd = ["apalache-mc", "check", "--init=" + init, "--next=" + nxt, "--inv=" + inv, "--length=%d" % length, "--out-dir=" + out,
+           os.path.join(specdir, module + ".tla")]
+    try:
+        r = subprocess.run(cmd, cwd=specdir, capture_output=True, text=True, timeout=timeout)
+    except subprocess.TimeoutExpired:
+        raise HarnessError("apalache timed out on " + module)
+    txt = r.stdout + r.stderr
+    shutil.rmtree(out, ignore_errors=True)
+    if "The outcome is: NoError" in txt and r.returncode == 0:
+        return True, txt
+    if "The outcome is: Error" in txt or "violat" in txt:
+        return False, txt
+    raise HarnessError("apalache failed on %s: %s" % (module, txt[-1500:]))
+
+
 def split_lines(path, n, outdir, prefix):
     """Split an ndjson file into at most n chunks of consecutive lines. Returns [(chunkpath, first_line_index)]."""
     lines = open(path).read().splitlines()
